@@ -35,7 +35,7 @@ Proof. exact inv_step_b. Qed.
 Print Assumptions C15_inv_step.
 
 (* every finite sequence over create / add_uid (text or image, any attribute list) / recertify / third-party certify / revoke uid / attest /
-   third-party direct-key certify / add_subkey / revoke subkey / revoke key / add revoker / del_uid / protect / unlock / lock / copy / export+import / publish the public
+   third-party direct-key certify / add_subkey / add_subkey of a key with identities (refused) / revoke subkey / revoke key / add revoker / del_uid / protect / unlock / lock / copy / export+import / publish the public
    twin, in any order, interleaved across any number of keys *)
 Theorem C15_inv_reachable : forall ops, inv_world (run ops) = true.
 Proof. exact inv_reachable_b. Qed.
@@ -63,7 +63,7 @@ Definition P2 : list Z := [2; 630720000; 10; -1; 9; -1; 0; -1].
 Definition h_ex : list op :=
   [OCreate 0; OCreate 1; OAddUid 0 true [1] P1 true 1; OAddUid 1 true [5] P1 false 1; OAddUid 0 false [4] P2 false 2;
    OAddUid 0 true [2] P2 true 2; ORecertify 0 true [1] P2 false 2; ORecertify 0 true [1] P1 true 2; OCertify 1 0 true [1] (Some false) 2;
-   OCertify 1 0 true [1] (Some true) 3; OAddSubkey 0 10 true 2 3; OAddSubkey 0 11 false 12 3; ORevokeSubkey 0 10 4; OAddRevoker 0 1 4;
+   OCertify 1 0 true [1] (Some true) 3; OAddSubkey 0 10 true 2 3; OAddSubkey 0 11 false 12 3; ORevokeSubkey 0 10 4; OAddRevoker 0 1 4; OAdoptKey 0 1 4;
    ORevokeUid 0 true [2] 4; OAttest 0 true [1] 4; OPublish 0; OCertify 1 2 true [1] None 5; OCertifyKey 1 0 (Some false) 5; OCertifyKey 1 2 (Some true) 5; ODelUid 0 [2]; OProtect 0; ORevokeKey 0 6; OUnlock 0; ORevokeKey 0 6;
    OCopy 0; OLock 0; OReimport 0; OReimport 2; OCopy 2].
 Example C15_history_example :
@@ -142,6 +142,25 @@ Proof.
   - intros s' [E|[]]. subst s'. vm_compute. discriminate.
   - split; [vm_compute; discriminate | vm_compute; reflexivity].
 Qed.
+
+(* repair 96d5157: a key expiration time of zero means that the key never expires (before: it "expired" at its creation time) *)
+Definition P0 : list Z := [2; 0; 8; -1; 9; -1; 1; -1].
+Theorem C15_key_expiration_zero_means_never :
+  (forall k, key_expiry k <> 0)
+  /\ exists ob, nth_error (run [OCreate 0; OAddUid 0 true [1] P0 true 1]) 0 = Some ob
+       /\ key_expiry (o_key ob) = -1 /\ key_expiry_pre96 (o_key ob) = 0.
+Proof.
+  split.
+  - intros k. unfold key_expiry, key_expiry_with. destruct (key_expiry_raw selfsig k =? 0) eqn:E; [discriminate|].
+    apply Z.eqb_neq. exact E.
+  - eexists. split; [vm_compute; reflexivity|]. split; vm_compute; reflexivity.
+Qed.
+Print Assumptions C15_key_expiration_zero_means_never.
+
+(* repair a832629: add_subkey of a key that has identities of its own is refused before anything changes *)
+Theorem C15_adopt_key_with_identities_refused : forall w i j t, apply w (OAdoptKey i j t) = w.
+Proof. reflexivity. Qed.
+Print Assumptions C15_adopt_key_with_identities_refused.
 
 (* ------------------------------------------------------------------ removed identities *)
 Theorem C15_removed_uid_absent : forall w i c ob j,
